@@ -7,6 +7,7 @@ pub mod c05;
 pub mod c06;
 pub mod c08;
 pub mod c09;
+pub mod c10;
 pub mod c13;
 pub mod c19;
 
@@ -34,6 +35,7 @@ pub fn sim_check(id: &str, tier: &str, _seed: i64) -> Option<SimCheck> {
         "C06" => Some(c06::build(tier)),
         "C08" => Some(c08::build(tier)),
         "C09" => Some(c09::build(tier)),
+        "C10" => Some(c10::build(tier)),
         "C13" => Some(c13::build(tier)),
         "C19" => Some(c19::build(tier)),
         _ => None,
